@@ -78,6 +78,7 @@ def _run_one(args: Tuple[Dict[str, Any], str]) -> Dict[str, Any]:
     from ..run import run_property
 
     t0 = time.time()
+    os.environ["SA_INNER_JOBS"] = "1"  # the variants already occupy the cores: evaluations inside one check run in sequence
     tmp = Path(tempfile.mkdtemp(prefix="pydsdl-sa-variant-"))
     try:
         _copy_tree(repo_root, tmp)
